@@ -820,3 +820,70 @@ def residual_degree(r: R, chk, qual: str, stated: float, rule="RESIDUAL-DEGREE")
                    func=qual, construct=f"degree-{d} residual compared with {cv:g}")
     chk.floor(rule, f"comparisons of the residual with a literal tolerance in {qual}", n, 1)
     return n
+
+
+# ------------------------------------------------------------------------------------------------
+# WEIGHT-SCALE: on the evaluation path nothing that scales with the weights is compared with a fixed number
+def weight_scale(r: R, chk, quals, rule="WEIGHT-SCALE", floor: int = 1):
+    """R_i = w_i N_i / sum_k w_k N_k does not change when every weight is multiplied by the same positive constant, so a test of a
+    quantity of non-zero degree in the weights (the denominator sum_k w_k N_k, a single weight) against a fixed non-zero number — an
+    absolute tolerance — makes the answer depend on the scale of the weights: weights of order 1e-15 are as good as weights of order 1."""
+    def attr(e):
+        if e.attr in ("weights", "_FunctionEvaluator__weights", "_BaseCurve__weights", "_BaseFunction__weights"):
+            return Fraction(1)
+        if e.attr in ("ctrlpoints", "knotvector", "npts", "degree", "knots", "limits"):
+            return Fraction(0)
+        return "skip"
+
+    n = 0
+    for q in quals:
+        ctx = r.root(q)
+        fi = ctx.fi
+
+        def call_result(call, k, ctx=ctx):
+            fn = seg(call.func)
+            if fn.endswith("eval_spline_nodes") or fn.endswith("speval_matrix") or fn.endswith("horner_method") or fn.endswith(".span"):
+                return [Fraction(0)] * k
+            return None
+
+        seeds = {}
+        for p_ in fi.params:
+            if "weight" in p_:
+                seeds[p_] = Fraction(1)
+            elif p_ in ("self", "cls"):
+                continue
+            else:
+                seeds[p_] = Fraction(0)
+        fl = Flow(r, ctx, attr, call_result)
+        fl.run(seeds)
+        env = fl.final_env
+        h0 = Homog(r, ctx, {})
+        n += 1
+        bad = []
+        for c in ast.walk(fi.node):
+            if not (isinstance(c, ast.Compare) and len(c.ops) == 1 and isinstance(c.ops[0], (ast.Lt, ast.LtE, ast.Gt, ast.GtE, ast.Eq, ast.NotEq))):
+                continue
+            for q_, lit in ((c.left, c.comparators[0]), (c.comparators[0], c.left)):
+                cv = h0.const(lit)
+                if cv is None or cv == 0 or h0.const(q_) is not None:
+                    continue
+                ds = fl.degs(q_, env)
+                if None in ds:
+                    # a local that is only assigned inside a loop is "undefined" on the zero-iteration path of the final
+                    # environment: take the degrees of its definitions instead
+                    core = q_
+                    while isinstance(core, ast.Call) and seg(core.func) in ("abs", "np.abs", "float") and core.args:
+                        core = core.args[0]
+                    if isinstance(core, ast.Name):
+                        defs = [a.value for a in ast.walk(fi.node) if isinstance(a, ast.Assign) and len(a.targets) == 1 and isinstance(a.targets[0], ast.Name) and a.targets[0].id == core.id]
+                        if defs and not any(isinstance(a, ast.AugAssign) and isinstance(a.target, ast.Name) and a.target.id == core.id for a in ast.walk(fi.node)):
+                            ds = frozenset().union(*[fl.degs(v, env) for v in defs])
+                real = {d for d in ds if d not in (None, ANY)}
+                if real and 0 not in real and None not in ds:
+                    bad.append((c, q_, cv, sorted(real)))
+        ok = not bad
+        chk.ob(rule, f"{q}: no quantity that scales with the weights is compared with a fixed number", ok, loc=r.loc(ctx, bad[0][0] if bad else fi.node),
+               detail="" if ok else f"{q}: `{seg(bad[0][0], 50)}` compares `{seg(bad[0][1], 30)}`, homogeneous of degree {bad[0][3][0]} in the weights, with the fixed number {bad[0][2]:g}: multiplying every weight by the same positive constant leaves the rational basis unchanged but moves this test — a curve whose weights are all small (1e-15) and whose weight function has no zero is refused / treated differently",
+               func=q, construct=f"weight-scaled quantity compared with {bad[0][2]:g}" if bad else "")
+    chk.floor(rule, "functions of the rational evaluation path examined", n, floor)
+    return n
